@@ -19,6 +19,18 @@ func init() {
 		"context.WithDeadline": "ModelWithDeadline",
 		"context.WithValue":    "ModelWithValue",
 		"github.com/minio/highwayhash.New64": "ModelNewHash64",
+		// file-system model (harness/verifapi/fsmodel.go)
+		"os.OpenFile": "ModelOpenFile", "os.Open": "ModelOpen", "os.Create": "ModelCreate", "os.Stat": "ModelStat", "os.Lstat": "ModelStat",
+		"os.MkdirAll": "ModelMkdirAll", "os.Mkdir": "ModelMkdirAll", "os.ReadDir": "ModelReadDir", "os.RemoveAll": "ModelRemoveAll",
+		"os.Remove": "ModelRemove", "os.ReadFile": "ModelReadFile", "os.WriteFile": "ModelWriteFile", "os.IsNotExist": "ModelIsNotExist",
+		"os.IsExist": "ModelIsExist", "os.TempDir": "ModelOSTempDir", "os.Getenv": "ModelGetenv",
+		"(*os.File).Read": "ModelFileRead", "(*os.File).Write": "ModelFileWrite", "(*os.File).WriteString": "ModelFileWriteString",
+		"(*os.File).ReadFrom": "ModelFileReadFrom", "(*os.File).Seek": "ModelFileSeek", "(*os.File).Truncate": "ModelFileTruncate",
+		"(*os.File).Close": "ModelFileClose", "(*os.File).Stat": "ModelFileStat", "(*os.File).Name": "ModelFileName", "(*os.File).Sync": "ModelFileSync",
+		"github.com/rogpeppe/go-internal/lockedfile.OpenFile":     "ModelLockedOpenFile",
+		"(*github.com/rogpeppe/go-internal/lockedfile.File).Close": "ModelLockedClose",
+		VerifAPIPath + ".TempDir": "ModelTempDir", VerifAPIPath + ".CrashAt": "ModelCrashAt", VerifAPIPath + ".FSOps": "ModelFSOps",
+		VerifAPIPath + ".Reboot": "ModelReboot",
 	} {
 		RegisterRedirect(real, model)
 	}
@@ -139,6 +151,28 @@ func init() {
 		return MkBool(active)
 	}
 
+	I["github.com/fsnotify/fsnotify.NewWatcher"] = func(t *Thread, fn *ssa.Function, a []Value) Value {
+		noteStub("fsnotify.NewWatcher = unavailable (returns an error; the code falls back to its one-second Stat poll)")
+		return Tuple{(*Cell)(nil), mkError(t, StrConst("fsnotify: not available in the model"))}
+	}
+	// verifapi.FixRandom(vals...): the next randstr.RandomString calls return these concrete strings
+	I[apiP+"FixRandom"] = func(t *Thread, fn *ssa.Function, a []Value) Value {
+		sl := a[0].(*SliceVal)
+		var q []*StrVal
+		for i := 0; i < sl.Len; i++ {
+			q = append(q, sl.Arr.Elem(sl.Off+i).V.(*StrVal))
+		}
+		t.ex.notes["_random"] = q
+		return nil
+	}
+	I["math.Min"] = func(t *Thread, fn *ssa.Function, a []Value) Value {
+		x, y := a[0].(*Term), a[1].(*Term)
+		return Ite(RCmp(OpRLT, y, x), y, x)
+	}
+	I["math.Max"] = func(t *Thread, fn *ssa.Function, a []Value) Value {
+		x, y := a[0].(*Term), a[1].(*Term)
+		return Ite(RCmp(OpRLT, x, y), y, x)
+	}
 	// ---------------- reflect ----------------
 	I["reflect.TypeOf"] = func(t *Thread, fn *ssa.Function, a []Value) Value {
 		noteStub("reflect.TypeOf = dynamic type token (only == is supported)")
